@@ -29,11 +29,14 @@ type WarmUpTrafficShapingCalculator struct {
 	threshold         float64
 	warmUpPeriodInSec uint32
 	coldFactor        uint32
-	warningToken      uint64
-	maxToken          uint64
-	slope             float64
-	storedTokens      int64
-	lastFilledTime    uint64
+	// warningToken and maxToken are real numbers: truncated to integers they collapsed
+	// to 0 for small period*threshold products, which made the slope infinite (a NaN
+	// threshold that admits everything) or pinned the calculator in the warm state.
+	warningToken   float64
+	maxToken       float64
+	slope          float64
+	storedTokens   int64
+	lastFilledTime uint64
 }
 
 func (c *WarmUpTrafficShapingCalculator) BoundOwner() *TrafficShapingController {
@@ -49,11 +52,11 @@ func NewWarmUpTrafficShapingCalculator(owner *TrafficShapingController, rule *Ru
 		logging.Warn("[NewWarmUpTrafficShapingCalculator] No set WarmUpColdFactor,use default warm up cold factor value", "defaultWarmUpColdFactor", config.DefaultWarmUpColdFactor)
 	}
 
-	warningToken := uint64((float64(rule.WarmUpPeriodSec) * rule.Threshold) / float64(coldFactor-1))
+	warningToken := (float64(rule.WarmUpPeriodSec) * rule.Threshold) / float64(coldFactor-1)
 
-	maxToken := warningToken + uint64(2*float64(rule.WarmUpPeriodSec)*rule.Threshold/float64(1.0+coldFactor))
+	maxToken := warningToken + 2*float64(rule.WarmUpPeriodSec)*rule.Threshold/float64(1.0+coldFactor)
 
-	slope := float64(coldFactor-1.0) / rule.Threshold / float64(maxToken-warningToken)
+	slope := float64(coldFactor-1.0) / rule.Threshold / (maxToken - warningToken)
 
 	warmUpTrafficShapingCalculator := &WarmUpTrafficShapingCalculator{
 		owner:             owner,
@@ -79,9 +82,9 @@ func (c *WarmUpTrafficShapingCalculator) CalculateAllowedTokens(_ uint32, _ int3
 	if restToken < 0 {
 		restToken = 0
 	}
-	if restToken >= int64(c.warningToken) {
-		aboveToken := restToken - int64(c.warningToken)
-		warningQps := math.Nextafter(1.0/(float64(aboveToken)*c.slope+1.0/c.threshold), math.MaxFloat64)
+	if float64(restToken) >= c.warningToken && c.threshold > 0 {
+		aboveToken := float64(restToken) - c.warningToken
+		warningQps := math.Nextafter(1.0/(aboveToken*c.slope+1.0/c.threshold), math.MaxFloat64)
 		return warningQps
 	} else {
 		return c.threshold
@@ -114,17 +117,20 @@ func (c *WarmUpTrafficShapingCalculator) coolDownTokens(currentTime uint64, pass
 
 	// Prerequisites for adding a token:
 	// When token consumption is much lower than the warning line
-	if oldValue < int64(c.warningToken) {
+	if float64(oldValue) < c.warningToken {
 		newValue = int64(float64(oldValue) + (float64(currentTime)-float64(atomic.LoadUint64(&c.lastFilledTime)))*c.threshold/1000.0)
-	} else if oldValue > int64(c.warningToken) {
+	} else {
 		if passQps < float64(uint32(c.threshold)/c.coldFactor) {
 			newValue = int64(float64(oldValue) + float64(currentTime-atomic.LoadUint64(&c.lastFilledTime))*c.threshold/1000.0)
 		}
 	}
 
-	if newValue <= int64(c.maxToken) {
+	// The stored tokens are whole numbers: round the cap up, otherwise a bucket whose
+	// capacity is below one token could never leave the warm state.
+	maxStored := int64(math.Ceil(c.maxToken))
+	if newValue <= maxStored {
 		return newValue
 	} else {
-		return int64(c.maxToken)
+		return maxStored
 	}
 }
